@@ -101,7 +101,13 @@ def linform(fn, op, depth=10):
             sk = fn.local_ty(sp[0])["k"]
         dk = fn.ty(rv["ty"])["k"]
         if sk in INT_MAX and dk in INT_MAX and sk.startswith("u") and INT_MAX[sk] <= INT_MAX[dk]:
-            return linform(fn, rv["a"], depth - 1)
+            inner = linform(fn, rv["a"], depth - 1)
+            if inner is not None and len([k for k in inner if k != 1]) >= 2 and INT_MAX[sk] < 2**63:
+                # a sum computed at a narrow width and widened afterwards (`(a + b) as usize` with u16 fields) is that sum only if
+                # it cannot wrap at the narrow width; otherwise it is its own symbol
+                if _may_wrap(fn, rv["a"], INT_MAX[sk]):
+                    return {("l", l): 1}
+            return inner
         return {("l", l): 1}
     if rv["k"] == "binop" and rv["op"] in ("Add", "Sub"):
         a = linform(fn, rv["a"], depth - 1)
@@ -110,6 +116,31 @@ def linform(fn, op, depth=10):
             return None
         return lf_add(a, b, 1 if rv["op"] == "Add" else -1)
     return {("l", l): 1}
+
+
+def _may_wrap(fn, op, mx, depth=6):
+    """the operand is (a copy of) a checked sum/product whose unwrapped value can exceed mx"""
+    from .panics import upper_bound
+    p = op_place(op)
+    if p is None or depth <= 0:
+        return False
+    d = fn.single_def(p[0])
+    if not d or d[1] == "term":
+        return False
+    rv = d[2]
+    if len(p) == 2 and p[1] == "f:0" and rv["k"] == "binop" and rv["op"] in ("AddWithOverflow", "MulWithOverflow"):
+        a, b = upper_bound(fn, rv["a"]), upper_bound(fn, rv["b"])
+        if a is None or b is None:
+            return True
+        return (a + b if rv["op"].startswith("Add") else a * b) > mx or _may_wrap(fn, rv["a"], mx, depth - 1) or _may_wrap(fn, rv["b"], mx, depth - 1)
+    if len(p) == 1 and rv["k"] == "use":
+        return _may_wrap(fn, rv["a"], mx, depth - 1)
+    if len(p) == 1 and rv["k"] == "binop" and rv["op"] in ("Add", "Mul"):
+        a, b = upper_bound(fn, rv["a"]), upper_bound(fn, rv["b"])
+        if a is None or b is None:
+            return True
+        return (a + b if rv["op"] == "Add" else a * b) > mx
+    return False
 
 
 def buf_sig(fn, op):
